@@ -22,7 +22,7 @@ ASSUMPTIONS = [
     "scipy.integrate.quad of the model's density is trusted as oracle; its own error estimate enters the tolerance "
     "(|obs-val| <= 1e-7|val| + 1e-12*scale + 10*err) and comparisons whose estimate exceeds 1e-8*scale are skipped",
     "parameter boxes of DESIGN.md section 3; CGMY y kept >= 0.05 away from the integers 0, 1, 2 except exactly 0 and 1, and except a few cases "
-    "2e-6 .. 1e-3 away from 1, judged with the relative tolerance 1e-7 + 1e-13 (1 + x^2) / |y - 1|, x = decay rate x end point (conditioning of the "
+    "2e-6 .. 1e-3 away from 1, judged with the relative tolerance 1e-7 + 1e-12 (1 + x^2) / |y - 1|, x = decay rate x end point (conditioning of the "
     "incomplete-gamma recurrences next to their removable singularity; observed on the unchanged tree: up to 1e-5 on far-tail masses of 1e-11 at |y - 1| = 2e-6)",
 ]
 REQUIRED_COUNTERS = ["cmp_integrate", "cmp_x", "cmp_xx", "cmp_xn", "additivity", "sign_rule", "truncated_cmp", "successive_truncations",
@@ -72,7 +72,7 @@ def gen_cases(tier, seed):
     # activity indices a few 1e-6 .. 1e-3 away from 1 (the closed forms switch formula AT 1, not near it)
     for i in range(6 if tier == "quick" else 40):
         sp = W.gen_model_spec(rng, "CGMY", "0<y<1" if i % 2 else "1<y<2", exp=False)
-        sp["params"]["y"] = float(1.0 + (-1.0 if i % 2 else 1.0) * 10.0 ** rng.uniform(-5.7, -3.0))
+        sp["params"]["y"] = float(1.0 + (-1.0 if i % 2 else 1.0) * (10.0 ** rng.uniform(-5.7, -3.0) if i % 4 < 2 else rng.uniform(4e-6, 9.9e-6)))
         specs.append(sp)
     for k, spec in enumerate(specs):
         trunc = None
@@ -176,7 +176,7 @@ def _run_case(case, R, mon):
         if near_one is None:
             return RTOL
         x = max([(spec["params"]["m"] if e > 0 else spec["params"]["g"]) * abs(e) for e in (a, b) if math.isfinite(e)] + [1.0])
-        return RTOL + 1e-13 * (1.0 + x * x) / near_one
+        return RTOL + 1e-12 * (1.0 + x * x) / near_one
     R.evaluation()
     R.klass(label_t)
     nontrivial = False
